@@ -10,6 +10,10 @@ THEOREMS = [
     "Spowtd.GS.gs_matching",
     "Spowtd.load_then_classify_total",
     "Spowtd.load_then_pairing_injective",
+    "Spowtd.flags_keys_distinct",
+    "Spowtd.interstorm_rows_valid",
+    "Spowtd.zeta_interval_keys_distinct",
+    "Spowtd.interval_rows_have_levels",
 ]
 TRUSTED_BASE = TRUSTED
 ASSUMPTIONS = ASSUME
